@@ -174,11 +174,13 @@ def c09(tier, seed):
     from . import overlay
     if tier == 'quick':
         plan = [('UO3', 2, dict(k1_ops=overlay.HIST_OPS + overlay.OBS_OPS, k2=12)),
+                ('UOW', 2, dict(ncfg=50, k1_ops=overlay.HIST_OPS, k2=4)),
                 ('UO3', 3, dict(ncfg=40, k1_ops=overlay.HIST_OPS))]
     else:
         plan = [('UO3', 2, dict(k1_ops=overlay.HIST_OPS + overlay.OBS_OPS, k2=150, k3=40)),
                 ('UO3', 3, dict(ncfg=400, k1_ops=overlay.HIST_OPS + overlay.OBS_OPS, k2=20)),
                 ('UO4', 2, dict(ncfg=300, k1_ops=overlay.HIST_OPS, k2=20)),
+                ('UOW', 2, dict(ncfg=500, k1_ops=overlay.HIST_OPS + overlay.OBS_OPS, k2=20)),
                 ('UO3', 1, dict(k1_ops=overlay.HIST_OPS + overlay.OBS_OPS, k2=30)),
                 ('UO3', 4, dict(ncfg=150, k1_ops=overlay.HIST_OPS))]
     return run_overlay('C09', tier, seed, plan)
@@ -205,11 +207,11 @@ def c10(tier, seed):
 def c08(tier, seed):
     from . import overlay
     if tier == 'quick':
-        plan = [('UO3', 2, dict(k1_ops=overlay.HIST_OPS + overlay.OBS_OPS, k2=6)),
-                ('UO3', 3, dict(ncfg=40, k1_ops=overlay.HIST_OPS))]
+        plan = [('UO3', 2, dict(k1_ops=overlay.HIST_OPS + overlay.OBS_OPS + overlay.TIME_OPS, k2=6)),
+                ('UO3', 3, dict(ncfg=40, k1_ops=overlay.HIST_OPS + overlay.TIME_OPS))]
     else:
-        plan = [('UO3', 2, dict(k1_ops=overlay.HIST_OPS + overlay.OBS_OPS, k2=80, k3=20)),
-                ('UO3', 3, dict(ncfg=400, k1_ops=overlay.HIST_OPS + overlay.OBS_OPS, k2=20)),
-                ('UO4', 2, dict(ncfg=300, k1_ops=overlay.HIST_OPS, k2=20)),
+        plan = [('UO3', 2, dict(k1_ops=overlay.HIST_OPS + overlay.OBS_OPS + overlay.TIME_OPS, k2=80, k3=20)),
+                ('UO3', 3, dict(ncfg=400, k1_ops=overlay.HIST_OPS + overlay.OBS_OPS + overlay.TIME_OPS, k2=20)),
+                ('UO4', 2, dict(ncfg=300, k1_ops=overlay.HIST_OPS + overlay.TIME_OPS, k2=20)),
                 ('UO3', 4, dict(ncfg=150, k1_ops=overlay.HIST_OPS, k2=5))]
     return run_overlay('C08', tier, seed, plan)
